@@ -591,6 +591,9 @@ struct Judge {
         for (auto& r : S.log) if (isTriggered(S.hs[r.h].kind) && std::fabs(r.t - t) <= E) return true;
         return false;
     }
+    // Third CPodes situation: its root search landed a bracket end exactly on the zero of a witness; the
+    // direction filter is then bypassed and the witness is reported for a direction it does not monitor.
+    static const char* exactZeroKey() { return "cpodes-exact-zero:unmonitored-direction-reported-when-root-bracket-ends-exactly-on-the-zero"; }
     static const char* coincKey() { return "cpodes-coincidence:crossing-or-dispatch-within-roundoff-of-a-report-or-scheduled-time"; }
     const char* attribute(const Traj& T, double t) const {
         if (!isCPodes(sc.ik)) return nullptr;
@@ -723,6 +726,11 @@ struct Judge {
                     if (ex / tl < best / bestTol) { best = ex; bestTol = tl; }
                 }
                 if (best > bestTol && tG - seg.ts <= Wg + DT && ambiguousAtStart(w, seg)) { c.obs("roundoff-level-rereport"); continue; }
+                if (best > bestTol && isCPodes(sc.ik) && !attribute(seg, tG)) {
+                    bool unmon = false;
+                    for (auto& rt : roots) if (!monitored(w, rt.dir) && std::max((tG - Wg) - rt.t, rt.t - tG) <= tslack(rt, dev)) unmon = true;
+                    if (unmon) { c.viol(exactZeroKey(), Json::obj().set("scen", sc.str()).set("oracle", "trig-call-window").set("tCall", tG).set("wit", witJ(H.wit))); continue; }
+                }
                 checkK("trig-call-window:" + tag + ":" + hkName(H.kind), best, bestTol, seg, tG, [&] {
                     Json jr = Json::arr(); for (auto& rt : roots) jr.push(Json::obj().set("t", rt.t).set("dir", rt.dir));
                     return Json::obj().set("scen", sc.str()).set("what", "triggered handler called with no monitored crossing in (t-window, t]").set("tCall", tG).set("window", Wg).set("roots", jr).set("wit", witJ(H.wit)).set("segStart", seg.ts).set("handler", hkey(L[k].h));
@@ -772,6 +780,7 @@ struct Judge {
                 if (isReporter(H.kind)) for (auto& tw : trigWins) inWindow |= (x > tw.first - tw.second - DT && x <= tw.first);
                 if (inWindow) { c.obs("scheduled-report-inside-event-window-dropped"); continue; }
                 bool ok = seenTimes[h].count(x) > 0;
+                if (!ok && isCPodes(sc.ik)) for (double sv : seenTimes[h]) ok |= std::fabs(sv - x) <= 1e-11 * std::max(1.0, std::fabs(x));   // (reported above as called off its time)
                 requireS(std::string("sched:scheduled-time-not-served:") + hkName(H.kind), ok, x, [&] { return Json::obj().set("scen", sc.str()).set("time", x).set("tStop", tStop).set("handler", (long)h).set("terminated", terminated).set("served", jvec(std::vector<double>(seenTimes[h].begin(), seenTimes[h].end()))); });
             }
             if (!exp.empty() || !seenTimes[h].empty()) c.cover(coverKey((int)h));
@@ -1106,7 +1115,13 @@ void runManual(Ctx& c, Scen& sc, Built& B) {
                 const int tr = (int)trans[i];
                 bool trOk = (tr == Event::NegativeToPositive || tr == Event::PositiveToNegative);
                 c.require("event:transition-is-single-direction:" + tag, trOk, [&] { return base().set("transition", tr); });
-                J.requireK("event:transition-in-monitored-mask:" + tag + ":" + wk, trOk && (tr & wt.mask) != 0, seg, tHigh, [&] { return base().set("transition", tr).set("wit", J.witJ(S.hs[h].wit)); });
+                {
+                    const bool inMask = trOk && (tr & wt.mask) != 0;
+                    const double g0 = wt.sg(tLow, ylo.data());
+                    if (!inMask && isCPodes(sc.ik) && !J.attribute(seg, tHigh) && std::fabs(g0) <= wt.gtol(tLow, ylo.data()))
+                        c.viol(Judge::exactZeroKey(), base().set("oracle", "event:transition-in-monitored-mask").set("transition", tr).set("gLow", g0).set("wit", J.witJ(S.hs[h].wit)));
+                    else J.requireK("event:transition-in-monitored-mask:" + tag + ":" + wk, inMask, seg, tHigh, [&] { return base().set("transition", tr).set("wit", J.witJ(S.hs[h].wit)); });
+                }
                 bool rising = tr == Event::NegativeToPositive;
                 // signs are judged up to the roundoff level of the witness (the returned before-state is
                 // re-interpolated after the advanced state was backed up, so it is not bitwise the
